@@ -40,6 +40,9 @@ class A:
         PredicatePlan.tick()
         return self.n < 2
 
+    def items_copy(self):          # a collection that is built on access (a new list object at every call)
+        return list(self.items) + []
+
 
 @symbol
 @dataclass(eq=False)
@@ -66,6 +69,9 @@ class B:
     def is_small(self):
         PredicatePlan.tick()
         return self.n < 2
+
+    def items_copy(self):          # a collection that is built on access (a new list object at every call)
+        return list(self.items) + []
 
 
 VALUE_FIELDS = ("n", "m", "s", "items", "t", "o", "d")
@@ -149,6 +155,17 @@ class PD:                 # inferable class with a non-None default: a field giv
 
 @symbol
 @dataclass(eq=False)
+class PC:                 # inferable class whose instances are callable (a command / formatter style object)
+    a: Any = None
+    b: Any = None
+    c: Any = None
+
+    def __call__(self):
+        return "called"
+
+
+@symbol
+@dataclass(eq=False)
 class K:                  # a keyword-only field between two positional ones: __init__(self, a=0, b=0, *, w=7)
     a: Any = 0
     w: Any = field(default=7, kw_only=True)
@@ -162,7 +179,7 @@ class R:                  # second inferable class
     b: Any = None
 
 
-CLASSES = {c.__name__: c for c in (A, B, Base, Mid, Leaf, Other, P, PF, PD, R, K, Own, OwnSub)}
+CLASSES = {c.__name__: c for c in (A, B, Base, Mid, Leaf, Other, P, PF, PD, PC, R, K, Own, OwnSub)}
 
 
 class Boom(Exception):
